@@ -1,4 +1,97 @@
 import RP.Driver.Common
--- line-protocol driver for property C18 (stub)
-def handle (_line : String) : String := "unimplemented"
-def main : IO Unit := RP.Driver.run handle
+import RP.Model.Pgcopy
+/-! line-protocol driver for C18:
+`cuts <blueprint|metric|lookup|transitions> <aux> <n> <row values…> <m> <k_1 … k_m>` →
+for every `k_i` what the model loader makes of the first `k_i` bytes of the saved file:
+`fail`, `ok` (= the content of the complete file) or `short:<rows>` (loaded, but different).
+`aux` is `n_children(street)` for transitions (0 = river: `Decomp::load` panics on `n_children`). -/
+open RP.Driver RP.Pgcopy
+
+namespace RP.Driver.C18
+
+def parseNats (ws : List String) : Option (List Nat) := ws.mapM String.toNat?
+
+def chunk (k : Nat) : Nat → List Nat → Option (List (List Nat) × List Nat)
+  | 0, rest => some ([], rest)
+  | n+1, xs =>
+    let r := xs.take k
+    if r.length < k then none else (chunk k n (xs.drop k)).map (fun (rs, rest) => (r :: rs, rest))
+
+def prow : List Nat → Option PRow
+  | [a, b, c, d, e, f] => some ⟨a, b, c, d, e, f⟩
+  | _ => none
+def mrow : List Nat → Option MRow
+  | [a, b] => some ⟨a, b⟩
+  | _ => none
+def lrow : List Nat → Option LRow
+  | [a, b] => some ⟨a, b⟩
+  | _ => none
+def trow : List Nat → Option TRow
+  | [a, b, c] => some ⟨a, b, c⟩
+  | _ => none
+
+/-- `(weight * mass) as usize`: f32 product, saturating conversion (NaN ↦ 0) -/
+def convF32 (mass : Nat) (bits : Nat) : Nat :=
+  ((Float32.ofBits bits.toUInt32) * (Float32.ofNat mass)).toUInt64.toNat
+
+def verdict {α : Type} [BEq α] (size : α → Nat) (complete : Option α) (got : Option α) : String :=
+  match got with
+  | none => "fail"
+  | some t => if some t == complete then "ok" else s!"short:{size t}"
+
+def runCuts {α : Type} [BEq α] (size : α → Nat) (load : Bytes → Option α) (file : Bytes) (ks : List Nat) : String :=
+  let complete := load file
+  joinSp (ks.map (fun k => verdict size complete (load (file.take k))))
+
+/-- split `<m> <k…>` -/
+def cutsOf (rest : List Nat) : Option (List Nat) :=
+  match rest with
+  | m :: ks => if ks.length = m then some ks else none
+  | [] => none
+
+def handle (line : String) : String :=
+  match words line with
+  | "cuts" :: table :: aux :: n :: rest =>
+    match aux.toNat?, n.toNat?, parseNats rest with
+    | some aux, some n, some vals =>
+      match table with
+      | "blueprint" =>
+        match chunk 6 n vals with
+        | some (rs, rest) =>
+          match rs.mapM prow, cutsOf rest with
+          | some rows, some ks =>
+            runCuts (fun (m : PMap) => m.rows.length) loadBlueprint (saveBlueprint rows) ks
+          | _, _ => "bad-op"
+        | none => "bad-op"
+      | "metric" =>
+        match chunk 2 n vals with
+        | some (rs, rest) =>
+          match rs.mapM mrow, cutsOf rest with
+          | some rows, some ks => runCuts (fun (m : KV) => m.length) loadMetric (saveMetric rows) ks
+          | _, _ => "bad-op"
+        | none => "bad-op"
+      | "lookup" =>
+        match chunk 2 n vals with
+        | some (rs, rest) =>
+          match rs.mapM lrow, cutsOf rest with
+          | some rows, some ks => runCuts (fun (m : KV) => m.length) loadLookup (saveLookup rows) ks
+          | _, _ => "bad-op"
+        | none => "bad-op"
+      | "transitions" =>
+        match chunk 3 n vals with
+        | some (rs, rest) =>
+          match rs.mapM trow, cutsOf rest with
+          | some rows, some ks =>
+            if aux = 0 then joinSp (ks.map (fun _ => "fail"))
+            else
+              runCuts (fun (m : TMap) => (m.map (fun e => e.2.2.length)).foldl (· + ·) 0)
+                (loadTransitions (convF32 aux)) (saveTransitions rows) ks
+          | _, _ => "bad-op"
+        | none => "bad-op"
+      | _ => "bad-op"
+    | _, _, _ => "bad-op"
+  | _ => "bad-op"
+
+end RP.Driver.C18
+
+def main : IO Unit := RP.Driver.run RP.Driver.C18.handle
